@@ -222,8 +222,12 @@ def gen_ctm(rng, tier, cls, i):
     if cls in ("ctm_map", "ctm_shared_wave") or (cls not in ("ctm_default", "ctm_chan") and rng.random() < 0.5):
         nw = max(1, n // 2) if cls == "ctm_shared_wave" else rng.randint(1, n)
         waves = _uniq_ids(rng, nw, chars="wavWAV0123456789_.-")
-        while len(waves) * len(chans) < n:
-            waves.append("w%d" % len(waves))
+        k = 0
+        while len(set(waves)) * len(chans) < n:
+            k += 1
+            if "wav%d" % k not in waves:
+                waves.append("wav%d" % k)
+        waves = list(dict.fromkeys(waves))  # the (wave, channel) pairs must be distinct: utt2wc is a bijection
         pairs = rng.sample([[w, c] for w in waves for c in chans], n)
         case["utt2wc"] = dict(zip(utts_ids, pairs))
     elif cls == "ctm_chan" or rng.random() < 0.3:
